@@ -206,6 +206,10 @@ theorem C01_unbindable_call_raises (s : Sig) (pos : List Val) (kws : List (Strin
   ⟨fun h hv => pyCall_excess_rejected s pos kws h hv,
    fun n v hm hk hvk => pyCall_unknown_keyword_rejected s pos kws n v hm hk hvk⟩
 
+/-- Non-vacuity: `def f(a)` called as `f(1, 2)` and as `f(1, z=2)`. -/
+example : pyCall [⟨"a", .pk, false⟩] [.v 1, .v 2] [] = .error .typeError := by decide
+example : pyCall [⟨"a", .pk, false⟩] [.v 1] [("z", .v 2)] = .error .typeError := by decide
+
 /-! ### The keyword part -/
 
 /-- **Nothing is invented or renamed**: every keyword argument `build` passes is a configured
